@@ -163,6 +163,9 @@ func fmtSpace(tier string) []gen.Gen {
 			gs = append(gs, gen.Map(kg, vg))
 		}
 	}
+	// 2-D slices of interface{}: rows with repeated strings and pointers (references across rows)
+	gs = append(gs, gen.Slice(gen.Slice(gen.Iface(byName["string"]))), gen.Slice(gen.Slice(iface)), gen.Slice(gen.Slice(gen.Iface(gen.Ptr(byName["int"])))),
+		gen.Slice(gen.Array(gen.Iface(byName["string"]), 3)), gen.Array(gen.Slice(gen.Iface(byName["string"])), 3))
 	// 2-D slices and depth 2
 	for _, l := range leaves {
 		s := gen.Slice(l)
